@@ -3,8 +3,11 @@ TextLine / PageLayout objects for every alignment situation of spec/AltoExport.t
 to_altoxml_string / from_altoxml_string / ArabicHelper conversions and project the results back to tokens and
 integers (the trace formats of AltoExport_Trace / ArabicOrder_Trace).  No verdict is taken here."""
 import itertools
+import json
 import math
+import os
 import re
+import sys
 
 import numpy as np
 import scipy.sparse
@@ -217,7 +220,9 @@ def build_line(concrete, sit, tag, frames=None):
 
 
 def build_page(case):
-    """case = {"W","H" (pixels), "blocks": [{"rect":[x1,y1,x2,y2], "lines":[{"concrete": str, "sit": str}]}]}"""
+    """case = {"W","H" (pixels), "blocks": [{"rect":[x1,y1,x2,y2], "lines":[{"concrete": str, "sit": str}]}]};
+    "geom": "reglist" = the region outlines are nested Python lists of int, the form PageLayout.from_altoxml itself gives them
+    (a layout read from an ALTO file whose lines were then recognised: list outlines around lines with posteriors)"""
     page = PageLayout(id="verif_page", page_size=(case["H"], case["W"]))
     tag = 0
     lines = []
@@ -227,7 +232,7 @@ def build_page(case):
         if blk.get("shape") == "hexagon" and x2 - x1 >= 4 and y2 - y1 >= 4:   # same bounding box, not a rectangle
             mx, my = (x1 + x2) // 2, (y1 + y2) // 2
             poly = np.array([[x1, my], [mx, y1], [x2, y1 + 1], [x2, my], [mx, y2], [x1, y2 - 1]])
-        region = RegionLayout("r%d" % k, poly)
+        region = RegionLayout("r%d" % k, poly.tolist() if case.get("geom") == "reglist" else poly)
         for ln in blk["lines"]:
             tag += 1
             tl = build_line(ln["concrete"], ln["sit"], tag, ln.get("frames"))
@@ -275,9 +280,11 @@ def conf_ppm(c):
     return max(-NONE_CONF, min(NONE_CONF - 1, int(math.floor(c * 1000000))))
 
 
-def project_alto(xml):
-    """ALTO string -> obs record of AltoExport_Trace"""
-    root = ET.fromstring(xml.encode("utf-8"))
+def project_alto(xml, ids=None, vmap=None):
+    """ALTO string (or the bytes of an ALTO file) -> obs record of AltoExport_Trace.
+    ids: region ids of the exported page in layout order (default r1, r2, ...: a TextBlock "block_<id>" gets idx = position of
+    <id>, 0 if unknown); vmap: VPOS of a line -> its layout position (default: VPOS = LINE_STEP * position)"""
+    root = ET.fromstring(xml.encode("utf-8") if isinstance(xml, str) else xml)
     ns = root.tag[:root.tag.index("}") + 1] if root.tag.startswith("{") else ""
     flags = {"ints": True}
     page = root.find(ns + "Layout").find(ns + "Page")
@@ -296,11 +303,19 @@ def project_alto(xml):
     blocks = []
     ps = page.find(ns + "PrintSpace")
     for tb in (ps.iter(ns + "TextBlock") if ps is not None else []):
-        m = re.match(r"^block_r(\d+)$", tb.get("ID") or "")
-        blk = {"idx": int(m.group(1)) if m else 0, "rect": _rect(tb, flags), "lines": []}
+        if ids is None:
+            m = re.match(r"^block_r(\d+)$", tb.get("ID") or "")
+            idx = int(m.group(1)) if m else 0
+        else:
+            bid = tb.get("ID") or ""
+            idx = ids.index(bid[6:]) + 1 if bid.startswith("block_") and bid[6:] in ids else 0
+        blk = {"idx": idx, "rect": _rect(tb, flags), "lines": []}
         for tl in tb.iter(ns + "TextLine"):
             v = tl.get("VPOS") or ""
-            tag = int(v) // LINE_STEP if _INT.match(v) and int(v) % LINE_STEP == 0 and int(v) > 0 else 0
+            if vmap is None:
+                tag = int(v) // LINE_STEP if _INT.match(v) and int(v) % LINE_STEP == 0 and int(v) > 0 else 0
+            else:
+                tag = vmap.get(int(v), 0) if _INT.match(v) else 0
             items, wcs = [], []
             for el in tl:
                 if el.tag == ns + "String":
@@ -317,11 +332,11 @@ def project_alto(xml):
 EMPTY_OBS = {"blocks": [], "geo": {k: [0, 0, 0, 0] for k in ("ps", "top", "left", "right", "bottom")}, "ints": True}
 
 
-def alto_trace(case):
-    """run the real export + re-import on one case (see build_page; plus "minconf" in millionths)"""
-    page, lines = build_page(case)
-    rec = {"W": case["W"], "H": case["H"], "minconf": case["minconf"], "blocks": [], "outcome": "ok",
-           "obs": EMPTY_OBS, "imp_outcome": "none", "imp": [], "confs": [], "sure": [], "pre": []}
+SCRATCH = None          # directory for the files written by the file variant of the export (the driver sets it to ctx.workdir)
+_FILE_NO = {"n": 0}
+
+
+def _history(case, page, lines):
     # History: for every other case the page object was exported once BEFORE, when its lines still held another transcription
     # (an uncorrected text with the words in another order and one word less) and the same logits; the text was then corrected in
     # place and the page is exported again - the recorded export.  It must speak about what the page holds now.
@@ -339,6 +354,71 @@ def alto_trace(case):
         for ln, text in zip(lines, final):
             ln.transcription = text
             ln.transcription_confidence = None
+
+
+def _export(page, lines, rec, minconf, via=None, ids=None, vmap=None):
+    """the recorded execution: export (string variant, or the file variant to_altoxml + the bytes of the written file),
+    projection of the result, re-import (from_altoxml_string, or from_altoxml on the written file).  Returns the re-imported page
+    (None if there is none)."""
+    rec["pre"] = [conf_ppm(ln.transcription_confidence) for ln in lines]
+    xml = None
+    path = None
+    try:
+        if via == "file":
+            # PageLayout.to_altoxml(file_name): no min_line_confidence argument, the export runs with the default 0
+            _FILE_NO["n"] += 1
+            path = os.path.join(SCRATCH, "c06_%d_%d.xml" % (os.getpid(), _FILE_NO["n"]))
+            with guarded(60):
+                page.to_altoxml(path)
+            with open(path, "rb") as fh:
+                xml = fh.read()
+            try:
+                rec["obs"] = project_alto(xml, ids, vmap)
+            except Exception as ex:   # the export returned, but what it wrote cannot be read as the XML file it declares to be
+                rec["outcome"] = "unreadable:" + type(ex).__name__
+                xml = None
+        else:
+            with guarded(60):
+                xml = page.to_altoxml_string(min_line_confidence=minconf / 1000000.0)
+            rec["obs"] = project_alto(xml, ids, vmap)
+    except Exception as ex:  # the export failing is an observation (clause 1), never a harness crash
+        rec["outcome"] = "exception:" + type(ex).__name__
+        xml = None
+    rec["confs"] = [conf_ppm(ln.transcription_confidence) for ln in lines]
+    back = None
+    if xml is not None:
+        try:
+            back = PageLayout()
+            with guarded(60):
+                if via == "file":
+                    back.from_altoxml(path)
+                else:
+                    back.from_altoxml_string(xml)
+            rec["imp"] = [[tokens_of_words(ln.transcription) for ln in reg.lines] for reg in back.regions]
+            rec["imp_outcome"] = "ok"
+        except Exception as ex:
+            rec["imp_outcome"] = "exception:" + type(ex).__name__
+            back = None
+    if path is not None:
+        try:
+            os.remove(path)
+        except OSError:
+            pass
+    return back
+
+
+def _new_rec(W, H, minconf):
+    return {"W": W, "H": H, "minconf": minconf, "blocks": [], "outcome": "ok",
+            "obs": EMPTY_OBS, "imp_outcome": "none", "imp": [], "confs": [], "sure": [], "pre": []}
+
+
+def _first_generation(case):
+    """run the real export + re-import on one case (see build_page; plus "minconf" in millionths; "via": "file" = the file
+    variant to_altoxml / from_altoxml(path) instead of the string variant)"""
+    page, lines = build_page(case)
+    via = case.get("via")
+    rec = _new_rec(case["W"], case["H"], 0 if via == "file" else case["minconf"])
+    _history(case, page, lines)
     # sure[tag] (millionths, -1 = nothing known): a lower bound of the line's confidence that holds by construction - alignable
     # posteriors with every character > 0.99 ("peaky", "window") or with label 0.8 against a strongest competitor 0.1 ("mid"):
     # a line whose bound is at or above the requested threshold must not be dropped.
@@ -360,26 +440,70 @@ def alto_trace(case):
                               "lines": [{"text": tokens_of(ln["concrete"]), "sit": ln["sit"],
                                          "conv": [tokens_of(helper().label_form_to_string(w)) for w in ln["concrete"].split()]}
                                         for ln in blk["lines"]]})
-    # what the lines held before the export: the field counts as "the confidence the export computed" only if the export wrote it
-    rec["pre"] = [conf_ppm(ln.transcription_confidence) for ln in lines]
-    xml = None
+    # rec["pre"]: what the lines held before the export: the field counts as "the confidence the export computed" only if the
+    # export wrote it
+    back = _export(page, lines, rec, rec["minconf"], via)
+    return rec, back
+
+
+def _second_generation(case):
+    """export -> import -> EXPORT: the page that from_altoxml_string rebuilt from the first export is a page of the statement as
+    well (its lines have baseline, polygon, heights and a transcription; no posteriors; region outlines are nested lists).  It is
+    exported, parsed and re-imported like any other page and recorded as a page of its own: W, H, block rectangles and texts are
+    read off the rebuilt object, every line is in the situation "nochars", lines are identified by their position in the rebuilt
+    page.  None when the first generation left no rebuilt page (its own trace is judged as the case without "gen")."""
+    first = {k: v for k, v in case.items() if k != "gen"}
+    rec1, back = _first_generation(first)
+    if back is None or not back.regions:
+        return None
+    lines = [ln for reg in back.regions for ln in reg.lines]
     try:
-        with guarded(60):
-            xml = page.to_altoxml_string(min_line_confidence=case["minconf"] / 1000000.0)
-        rec["obs"] = project_alto(xml)
-    except Exception as ex:  # the export failing is an observation (clause 1), never a harness crash
-        rec["outcome"] = "exception:" + type(ex).__name__
-    rec["confs"] = [conf_ppm(ln.transcription_confidence) for ln in lines]
-    if xml is not None:
-        try:
-            back = PageLayout()
-            back.from_altoxml_string(xml)
-            rec["imp"] = [[tokens_of_words(ln.transcription) for ln in reg.lines] for reg in back.regions]
-            rec["imp_outcome"] = "ok"
-        except Exception as ex:
-            rec["imp_outcome"] = "exception:" + type(ex).__name__
+        rec = _new_rec(int(back.page_size[1]), int(back.page_size[0]), 0)
+        vmap, tag = {}, 0
+        for reg in back.regions:
+            xs = [int(p[0]) for p in reg.polygon]
+            ys = [int(p[1]) for p in reg.polygon]
+            blk = {"rect": [min(xs), min(ys), max(xs), max(ys)], "lines": []}
+            for ln in reg.lines:
+                tag += 1
+                text = ln.transcription or ""
+                vmap.setdefault(min(int(p[1]) for p in ln.polygon), tag)
+                blk["lines"].append({"text": tokens_of(text), "sit": "nochars",
+                                     "conv": [tokens_of(helper().label_form_to_string(w)) for w in text.split()]})
+                rec["sure"].append(-1)
+            rec["blocks"].append(blk)
+        rec["gen2"] = {"region_outline": type(back.regions[0].polygon).__name__,
+                       "texts": [ln.transcription or "" for ln in lines]}
+        ids = [str(reg.id) for reg in back.regions]
+    except Exception:
+        return None            # the rebuilt page cannot even be described: the re-import clause of the first generation speaks
+    _export(back, lines, rec, 0, None, ids, vmap)
     return rec
+
+
+def alto_trace(case):
+    """one recorded execution for one case; None = nothing to record (second generation of a failed first generation)"""
+    if case.get("gen") == 2:
+        return _second_generation(case)
+    return _first_generation(case)[0]
 
 
 def tokens_of_words(s):
     return [tokens_of(w) for w in (s or "").split()]
+
+
+def child_main():
+    """entry point of the child process the driver starts in a different process environment (locale):
+         python -c "from harness import alto_common as A; A.child_main()" cases.json traces.json scratch_dir
+    runs alto_trace on every case and reports the environment it found itself in"""
+    import locale
+    import logging
+    global SCRATCH
+    inp, outp, SCRATCH = sys.argv[1:4]
+    logging.getLogger("pero_ocr.core.layout").setLevel(logging.ERROR)
+    with open(inp, encoding="utf-8") as fh:
+        cases = json.load(fh)
+    traces = [alto_trace(c) for c in cases]
+    with open(outp, "w", encoding="utf-8") as fh:
+        json.dump({"encoding": locale.getpreferredencoding(False), "utf8_mode": int(sys.flags.utf8_mode),
+                   "fs_encoding": sys.getfilesystemencoding(), "traces": traces}, fh)
